@@ -87,40 +87,69 @@ theorem allFresh_append {svcs : List Svc} {reg reg' : Registry} {s : Svc} (hsv :
     subst this
     exact MemoOk.clear lower s
 
-/-- `register`: whatever the validator and `_add` decide, the block returns and the invariant holds afterwards -/
+theorem registerE_spec {d d' : CS υ} {s : Svc} {strict : Bool} (h : registerE lower d s strict = .ok d') :
+    ∃ reg', d.reg.add lower s = .ok reg' ∧ d' = { d with reg := reg' } := by
+  unfold registerE at h
+  split at h
+  · cases h
+  · split at h
+    · cases h
+    · split at h
+      · cases h
+      · rename_i reg' hadd
+        simp only [Except.ok.injEq] at h
+        exact ⟨reg', hadd, h.symm⟩
+
+theorem updateE_spec {d d' : CS υ} {s : Svc} (h : updateE lower d s = .ok d') :
+    ∃ reg', d.reg.update lower s = .ok reg' ∧ d' = { d with reg := reg' } := by
+  unfold updateE at h
+  split at h
+  · cases h
+  · split at h
+    · cases h
+    · rename_i reg' hupd
+      simp only [Except.ok.injEq] at h
+      exact ⟨reg', hupd, h.symm⟩
+
+/-- `register`: whatever the validator, the dry-run encode (where the tree has it: D28) and `_add` decide, the block returns and the
+invariant holds afterwards -/
 theorem register_ok {d : CS υ} (hI : Full lower ettl Iυ d) (s : Svc) (strict : Bool) (hs : SvcSafe lower ettl s) :
-    ∃ d', apiStep lower possible U upd d (.register s strict) = .ok (d', []) ∧ Full lower ettl Iυ d' := by
+    ∃ d', apiStep lower possible U upd d (.register s strict) = .ok (d', []) ∧ Full lower ettl Iυ d' ∧ d'.cache = d.cache := by
   simp only [apiStep]
   cases hr : registerE lower d s strict with
-  | error e => exact ⟨d, rfl, hI⟩
+  | error e => exact ⟨d, rfl, hI, rfl⟩
   | ok d' =>
     refine ⟨d', rfl, ?_⟩
-    unfold registerE at hr
-    split at hr
-    · cases hr
-    · rcases Registry.add_spec lower d.reg hI.1.1.reg s with ⟨_, herr⟩ | ⟨_, r, hok, hir, hsv⟩
-      · rw [herr] at hr; cases hr
-      · rw [hok] at hr
-        simp only [Except.ok.injEq] at hr
-        subst hr
-        exact hI.setReg lower ettl Iυ hir
-          (allFresh_append lower hsv (fun x hx => hx) hI.1.1.fresh)
-          (regSafe_append lower ettl hsv (fun x hx => hx) hI.1.1.safe hs)
+    obtain ⟨reg', hadd, rfl⟩ := registerE_spec lower hr
+    rcases Registry.add_spec lower d.reg hI.1.1.reg s with ⟨_, herr⟩ | ⟨_, r, hok, hir, hsv⟩
+    · rw [herr] at hadd; cases hadd
+    · rw [hok] at hadd
+      simp only [Except.ok.injEq] at hadd
+      subst hadd
+      exact ⟨hI.setReg lower ettl Iυ hir
+        (allFresh_append lower hsv (fun x hx => hx) hI.1.1.fresh)
+        (regSafe_append lower ettl hsv (fun x hx => hx) hI.1.1.safe hs), rfl⟩
 
 /-- `update` -/
 theorem update_ok {d : CS υ} (hI : Full lower ettl Iυ d) (s : Svc) (hs : SvcSafe lower ettl s) :
-    ∃ d', apiStep lower possible U upd d (.update s) = .ok (d', []) ∧ Full lower ettl Iυ d' := by
+    ∃ d', apiStep lower possible U upd d (.update s) = .ok (d', []) ∧ Full lower ettl Iυ d' ∧ d'.cache = d.cache := by
   simp only [apiStep]
-  obtain ⟨r, hok, hir, hsv⟩ := Registry.update_spec lower d.reg hI.1.1.reg s
-  rw [hok]
-  refine ⟨_, rfl, ?_⟩
-  exact hI.setReg lower ettl Iυ hir
-    (allFresh_append lower hsv (fun x hx => (List.mem_filter.mp hx).1) hI.1.1.fresh)
-    (regSafe_append lower ettl hsv (fun x hx => (List.mem_filter.mp hx).1) hI.1.1.safe hs)
+  cases hr : updateE lower d s with
+  | error e => exact ⟨d, rfl, hI, rfl⟩
+  | ok d' =>
+    refine ⟨d', rfl, ?_⟩
+    obtain ⟨reg', hupd, rfl⟩ := updateE_spec lower hr
+    obtain ⟨r, hok, hir, hsv⟩ := Registry.update_spec lower d.reg hI.1.1.reg s
+    rw [hok] at hupd
+    simp only [Except.ok.injEq] at hupd
+    subst hupd
+    exact ⟨hI.setReg lower ettl Iυ hir
+      (allFresh_append lower hsv (fun x hx => (List.mem_filter.mp hx).1) hI.1.1.fresh)
+      (regSafe_append lower ettl hsv (fun x hx => (List.mem_filter.mp hx).1) hI.1.1.safe hs), rfl⟩
 
 theorem QShape.purge {q : Reply.Queue} (h : QShape q) (W : List Nat) : QShape (purgeQueue W q) := by
   obtain ⟨h1, h2⟩ := h
-  unfold purgeQueue
+  unfold purgeQueue Reply.Queue.removeRecords
   refine ⟨?_, ?_⟩
   · simp only [List.map_eq_nil_iff]; exact h1
   · exact List.Pairwise.map _ (fun a b hab => hab) h2
@@ -496,25 +525,11 @@ theorem apiStep_ok (glue : TextGlue) (hU : UserOK U Iυ) {d : CS υ} (hI : Full 
     ∃ d' o, apiStep lower possible U upd d b = .ok (d', o) ∧ Full lower ettl Iυ d' ∧ ∀ P : Rec → Prop, CacheAll P d.cache → CacheAll P d'.cache := by
   cases b with
   | register s strict =>
-    obtain ⟨d', h, hI'⟩ := register_ok lower possible ettl U upd Iυ hI s strict hb
-    refine ⟨d', [], h, hI', ?_⟩
-    simp only [apiStep] at h
-    split at h
-    · rename_i d'' hr
-      simp only [Except.ok.injEq, Prod.mk.injEq] at h
-      rw [← h.1]
-      unfold registerE at hr
-      split at hr
-      · cases hr
-      · split at hr
-        · cases hr
-        · simp only [Except.ok.injEq] at hr; rw [← hr]; exact fun P hP => hP
-    · simp only [Except.ok.injEq, Prod.mk.injEq] at h; rw [← h.1]; exact fun P hP => hP
+    obtain ⟨d', h, hI', hc⟩ := register_ok lower possible ettl U upd Iυ hI s strict hb
+    exact ⟨d', [], h, hI', by rw [hc]; exact fun P hP => hP⟩
   | update s =>
-    obtain ⟨d', h, hI'⟩ := update_ok lower possible ettl U upd Iυ hI s hb
-    refine ⟨d', [], h, hI', ?_⟩
-    simp only [apiStep] at h
-    split at h <;> (simp only [Except.ok.injEq, Prod.mk.injEq] at h; rw [← h.1]; exact fun P hP => hP)
+    obtain ⟨d', h, hI', hc⟩ := update_ok lower possible ettl U upd Iυ hI s hb
+    exact ⟨d', [], h, hI', by rw [hc]; exact fun P hP => hP⟩
   | unregister s =>
     obtain ⟨d', h, hI'⟩ := unregister_ok lower possible ettl U upd Iυ hI s
     refine ⟨d', [], h, hI', ?_⟩
